@@ -77,6 +77,28 @@ from tangermeme.product import apply_pairwise, apply_product
 from tangermeme.design import greedy_substitution
 import tangermeme.deep_lift_shap as _dls_mod
 
+# ----------------------------------------------------------------------------------------------
+# POSSIBLE DEFECT (kept behind a flag that is False: the assertion fires on the unchanged repository)
+#
+#   A BaseException that is not an Exception (KeyboardInterrupt, SystemExit) arriving WHILE deep_lift_shap registers its
+#   hooks leaves the hooks registered so far on the model: the registration is guarded by
+#       try: model.apply(_register_hooks)
+#       except Exception as e: model.apply(_clear_hooks); raise(e)
+#   (deep_lift_shap.py, just before the batch loop), which lets a BaseException through without clearing, whereas the
+#   batch loop itself is guarded by try/finally.  The statement says "or raises at any point".
+#   Input: model = Conv1d(4,3,3,padding=1) - BombReLU - SumLen - Linear(3,4) - BombReLU - Linear(4,2)   (_spec('regbomb')),
+#   X = 3 one-hot sequences of length 8, deep_lift_shap(model, X, batch_size=4, n_shuffles=2, references=_ref_fn,
+#   random_state=0, additional_nonlinear_ops=_ops(True), device='cpu'), KeyboardInterrupt raised by the k-th
+#   register_* call (channel 'register'), k = 2..6:
+#     k=2: 1 hook left (_f_hook on the first activation); k=4: 3 hooks left incl. _b_hook - the ordinary gradients of the
+#     model w.r.t. input and parameters on the probe batch then differ from before the call; k=6: 5 hooks left.
+#   (k=1 leaves nothing; the same injection points with RuntimeError / a user Exception sub-class leave nothing and are
+#   asserted.)  The window is a few microseconds wide in practice (a Ctrl-C during model.apply(_register_hooks)); an
+#   activation class whose register_* methods can raise is needed to hit it deterministically.
+#   Replay: {'kind': 'call', 'api': 'deep_lift_shap', 'model': _spec('regbomb'), 'data': {'n': 3, 'L': 8, 'seed': 0},
+#            'opts': {'bs': 4, 'ops': True}, 'invalid': None, 'inject': {'channel': 'register', 'k': 4, 'exc': 'KeyboardInterrupt'}}
+CHECK_BASEEXC_DURING_REGISTRATION = True   # repaired in /repo by ca4330a (known_findings.json: fixed); asserted since
+
 SCOPE = {
     'quick': 'models: conv-relu-sum-linear (bomb pre/mid/post), conv-batchnorm-relu-maxpool-dropout-sum-linear-tanh-linear (training mode), '
              'with extra arg, with pre-existing user hooks; 3 sequences of length 8, 2 shuffles, batch sizes 1/4/32; '
@@ -979,10 +1001,6 @@ _NO_FUNC = ('predict', 'saturation_mutagenesis', 'greedy_substitution')
 _NO_ARGS = ('greedy_substitution', 'ablate_annotations')
 
 
-# POSSIBLE DEFECT - see the comment block at the top of run()
-CHECK_BASEEXC_DURING_REGISTRATION = False
-
-
 def run(rep):
     thorough = rep.tier == 'thorough'
     _selftest()
@@ -1022,8 +1040,9 @@ def run(rep):
         for ops in (False, True):
             o = dict(opts, ops=ops)
             chans = ('bhook',) if ops else ('forward', 'reference', 'backward', 'postproc')
-            # all four exception classes on the first configuration (every k), elsewhere RuntimeError / KeyboardInterrupt
-            excs = every if first or thorough else both
+            # all four exception classes on the first configuration (thorough: on every configuration with batch size 4
+            # and an integer random_state), every k; elsewhere RuntimeError / KeyboardInterrupt
+            excs = every if first or (thorough and opts.get('bs') == 4 and opts.get('rs', 0) == 0) else both
             if not _inject_all(rep, _base('deep_lift_shap', model, d, o), chans, excs, 'deep_lift_shap'):
                 rep.note('time budget reached in part A')
                 return
@@ -1125,6 +1144,9 @@ def run(rep):
     for mdl in models:
         cache = {}
         todo = [(idxs, 'history-len%d' % ln) for ln in (1, 2) for idxs in itertools.product(range(len(MENU)), repeat=ln)]
+        # the histories that contain an added menu item first (a stale op table shows only there)
+        n_old = len(MENU) - len(_MENU_ADDED)
+        todo.sort(key=lambda t: not any(i >= n_old for i in t[0]))
         todo += [(idxs, 'history-len3') for idxs in itertools.product(core, repeat=3)]
         all4 = list(itertools.product(core, repeat=4))
         todo += [(idxs, 'history-len4') for idxs in (all4 if thorough else rng.sample(all4, 120))]
